@@ -160,6 +160,52 @@ theorem ping_exchange (c : Connection S) (rest : Bytes) :
     simp [dispatch]
   simp only [command_step, hu, Bool.false_eq_true, if_false, hd, hp, Except.map, List.append_assoc, List.cons_append, List.nil_append]
 
+/-- **a whole COM_INIT_DB exchange**: a name that does not decode → exactly one ERR, the application is not told; otherwise the
+    application's `use` is told the decoded name exactly once, *before* anything is written, and then exactly one OK — or, iff
+    `use` raised, exactly one ERR; the sequence reset comes last and the loop goes on -/
+theorem init_db_exchange (c : Connection S) (rest : Bytes) :
+    let c1 : Connection S := { c with _executing := true }
+    match Mimic.Extracted.ParsersCode.parse_com_init_db E c.client_charset rest with
+    | none => command_step E cp pc coldef parse app ur fls fcd other err af c (2 :: rest)
+        = ({ c with _executing := false, out := c.out ++ [Ev.write (err { c with _executing := false }) true, Ev.reset_seq] }, true)
+    | some db =>
+      if ur db then
+        command_step E cp pc coldef parse app ur fls fcd other err af c (2 :: rest)
+          = ({ c with _executing := false,
+                      out := c.out ++ [Ev.session_use db, Ev.write (err { c with _executing := false, out := c.out ++ [Ev.session_use db] }) true, Ev.reset_seq] }, true)
+      else ∃ (e : Bool) (a l w f : Nat),
+        command_step E cp pc coldef parse app ur fls fcd other err af c (2 :: rest)
+          = ({ c with _executing := false, out := c.out ++ [Ev.session_use db, Ev.write (ok c1 e a l w f) true, Ev.reset_seq] }, true) := by
+  intro c1
+  have hu : untranslated.contains (2 : UInt8).toNat = false := by decide
+  have hd : dispatch E cp pc coldef parse app ur fls fcd other c1 (2 : UInt8).toNat rest = (handle_init_db E ur c1 rest).map some := by
+    simp [dispatch]
+  have hs := handle_init_db_spec E ur c1 rest
+  have hcs : c1.client_charset = c.client_charset := rfl
+  rw [hcs] at hs
+  cases hp : Mimic.Extracted.ParsersCode.parse_com_init_db E c.client_charset rest with
+  | none =>
+    rw [hp] at hs; dsimp only at hs ⊢
+    simp only [command_step, hu, Bool.false_eq_true, if_false]
+    rw [hd, hs]
+    simp only [Except.map, List.append_assoc, List.cons_append, List.nil_append]
+    rfl
+  | some db =>
+    rw [hp] at hs; dsimp only at hs ⊢
+    by_cases hr : ur db = true
+    · rw [if_pos hr] at hs; rw [if_pos hr]
+      simp only [command_step, hu, Bool.false_eq_true, if_false]
+      rw [hd, hs]
+      simp only [Except.map, List.append_assoc, List.cons_append, List.nil_append]
+      rfl
+    · rw [if_neg hr] at hs; rw [if_neg hr]
+      obtain ⟨e, a, l, w, f, hs⟩ := hs
+      refine ⟨e, a, l, w, f, ?_⟩
+      simp only [command_step, hu, Bool.false_eq_true, if_false]
+      rw [hd, hs]
+      simp only [Except.map, List.append_assoc, List.cons_append, List.nil_append]
+      rfl
+
 /-- the loop, one packet at a time -/
 theorem loop_cons (c : Connection S) (p : Bytes) (ps : List Bytes) :
     command_loop E cp pc coldef parse app ur fls fcd other err af c (p :: ps)
